@@ -14,10 +14,13 @@ import DateutilVerif.Proofs.RRuleStrMalformed
 import DateutilVerif.Proofs.RRuleStrOrder
 import DateutilVerif.Proofs.RRuleStrSet
 import DateutilVerif.Proofs.RRuleStrSpell
+import DateutilVerif.Proofs.RRuleStrOpts
 
 namespace C13
 open RRuleStr
 open ICal (upper splitOnChar pyInt isDigit)
+
+variable {po : ParseOpts}
 
 /-! ## 1. decimal numbers -/
 
@@ -52,14 +55,14 @@ theorem errors_are_ValueError (s : List Char) (o : Opts) (kw : Bool) (e : Py.PyE
     BYWEEKDAY, BYDAY) makes `_parse_rfc_rrule` fail with ValueError, wherever it stands in the line -/
 theorem unknown_part_ValueError {line value p name v : List Char} (hv : lineValue line = .ok value)
     (hp : p ∈ splitOnChar ';' value) (hs : splitOnChar '=' p = [name, v]) (hn : upper name ∉ handledNames) :
-    parseRRuleLine line = .error .ValueError :=
+    parseRRuleLine po line = .error .ValueError :=
   parseRRuleLine_fails hv hp (badPart_fails (.unknown p name v hs hn))
 
 /-- a malformed part (`BadPart`: not exactly one `=`; a non-integer for INTERVAL / COUNT; a non-integer or empty item in an
     integer list; an unknown FREQ or WKST name; a BYDAY / BYWEEKDAY item that `parseWDay` rejects) makes
     `_parse_rfc_rrule` fail with ValueError, wherever it stands in the line -/
 theorem malformed_value_ValueError {line value p : List Char} (hv : lineValue line = .ok value)
-    (hp : p ∈ splitOnChar ';' value) (hbad : BadPart p) : parseRRuleLine line = .error .ValueError :=
+    (hp : p ∈ splitOnChar ';' value) (hbad : BadPart p) : parseRRuleLine po line = .error .ValueError :=
   parseRRuleLine_fails hv hp (badPart_fails hbad)
 
 /-- the BYDAY items that are rejected: the empty item, `n = 0` in either spelling (any weekday, any spelling of zero),
@@ -77,16 +80,16 @@ theorem malformed_byday_items :
    fun _ hne hp hsd hl => parseWDay_unknown_name hne hp hsd hl⟩
 
 -- non-vacuity: an unknown name, a bad integer, a pair without `=`, in the middle of a line
-example : parseRRuleLine (lit "RRULE:FREQ=DAILY;FOO=1;COUNT=2") = .error .ValueError :=
+example : parseRRuleLine po (lit "RRULE:FREQ=DAILY;FOO=1;COUNT=2") = .error .ValueError :=
   unknown_part_ValueError (value := lit "FREQ=DAILY;FOO=1;COUNT=2") (p := lit "FOO=1") (name := lit "FOO") (v := lit "1")
     (by decide) (by decide) (by decide) (by decide)
-example : parseRRuleLine (lit "FREQ=DAILY;interval=x") = .error .ValueError :=
+example : parseRRuleLine po (lit "FREQ=DAILY;interval=x") = .error .ValueError :=
   malformed_value_ValueError (value := lit "FREQ=DAILY;interval=x") (p := lit "interval=x") (by decide) (by decide)
     (.badInt _ (lit "interval") (lit "x") (by decide) (by decide) (by decide))
-example : parseRRuleLine (lit "FREQ=DAILY;COUNT") = .error .ValueError :=
+example : parseRRuleLine po (lit "FREQ=DAILY;COUNT") = .error .ValueError :=
   malformed_value_ValueError (value := lit "FREQ=DAILY;COUNT") (p := lit "COUNT") (by decide) (by decide)
     (.notPair _ (by decide))
-example : parseRRuleLine (lit "FREQ=DAILY;BYDAY=MO,,TU") = .error .ValueError :=
+example : parseRRuleLine po (lit "FREQ=DAILY;BYDAY=MO,,TU") = .error .ValueError :=
   malformed_value_ValueError (value := lit "FREQ=DAILY;BYDAY=MO,,TU") (p := lit "BYDAY=MO,,TU") (by decide) (by decide)
     (.badDay _ (lit "BYDAY") (lit "MO,,TU") [] .ValueError (by decide) (by decide) (by decide) (by decide))
 example : parseRfc (lit "DTSTART:19970902T090000") {} = .error .ValueError := by decide   -- no RRULE at all (fixed)
@@ -122,7 +125,7 @@ theorem byday_spellings (k : Int) (h0 : 0 ≤ k) (h6 : k ≤ 6) (n : Int) (hn : 
   · exact parseWDay_paren ')' hw (isSignDigit_not_paren (showInt_signDigit n)) (by decide) (RRuleStr.pyInt_showInt n) hn
 
 /-- `BYDAY=` and `BYWEEKDAY=` are the same handler -/
-theorem byday_eq_byweekday (value : List Char) : handleU (lit "BYDAY") value = handleU (lit "BYWEEKDAY") value :=
+theorem byday_eq_byweekday (value : List Char) : handleU po (lit "BYDAY") value = handleU po (lit "BYWEEKDAY") value :=
   handleU_byday_eq_byweekday value
 
 example : parseWDay (lit "+1MO") = .ok (0, some 1) ∧ parseWDay (lit "1MO") = .ok (0, some 1) ∧
@@ -134,16 +137,16 @@ example : parseWDay (lit "+1MO") = .ok (0, some 1) ∧ parseWDay (lit "1MO") = .
     keyword), the loop of `_parse_rfc_rrule` gives the same result over any permutation: the same arguments when all
     parts parse, and (with `errors_are_ValueError`) ValueError in every order otherwise -/
 theorem parts_order_irrelevant {ps qs : List (List Char)} (hperm : ps.Perm qs) (hd : ps.Pairwise Distinct) (a : RArgs) :
-    ps.foldlM stepPair a = qs.foldlM stepPair a := foldlM_stepPair_perm hperm hd a
+    ps.foldlM (stepPair po) a = qs.foldlM (stepPair po) a := foldlM_stepPair_perm hperm hd a
 
 /-- the same at the level of the RRULE value -/
 theorem parts_order_irrelevant_line {v1 v2 : List Char} (h1 : ':' ∉ v1) (h2 : ':' ∉ v2)
     (hperm : (splitOnChar ';' v1).Perm (splitOnChar ';' v2)) (hd : (splitOnChar ';' v1).Pairwise Distinct) :
-    parseRRuleLine v1 = parseRRuleLine v2 := by
+    parseRRuleLine po v1 = parseRRuleLine po v2 := by
   rw [parseRRuleLine_of_lineValue (lineValue_noColon h1), parseRRuleLine_of_lineValue (lineValue_noColon h2)]
   exact foldlM_stepPair_perm hperm hd {}
 
-example : parseRRuleLine (lit "COUNT=3;BYDAY=MO;FREQ=WEEKLY") = parseRRuleLine (lit "FREQ=WEEKLY;COUNT=3;BYDAY=MO") :=
+example : parseRRuleLine po (lit "COUNT=3;BYDAY=MO;FREQ=WEEKLY") = parseRRuleLine po (lit "FREQ=WEEKLY;COUNT=3;BYDAY=MO") :=
   parts_order_irrelevant_line (by decide) (by decide) (by decide) (by decide)
 
 /-! ## 6. str / rrulestr round trip -/
@@ -151,7 +154,7 @@ example : parseRRuleLine (lit "COUNT=3;BYDAY=MO;FREQ=WEEKLY") = parseRRuleLine (
 /-- the `RRULE:` line of `str(rule)` parses back to exactly the printed arguments, for EVERY rule in printable normal form
     (`Printable`: freq < 7, wkst in 0..6, BY-lists non-empty when present, weekday numbers 0..6 with n ≠ 0 when present;
     interval, count and all list members arbitrary integers) -/
-theorem str_roundtrip_line (x : StrIn) (hx : Printable x) : parseRRuleLine (rruleLineOf x) = .ok (argsOf x) :=
+theorem str_roundtrip_line (x : StrIn) (hx : Printable x) : parseRRuleLine po (rruleLineOf x) = .ok (argsOf po x) :=
   parseRRuleLine_rruleLineOf x hx
 
 /-- the compact date form `YYYYMMDDTHHMMSS` that `__str__` emits for DTSTART and UNTIL reads back field by field -/
@@ -159,22 +162,26 @@ theorem compact_roundtrip (y m d hh mm ss : Nat) (hy : y < 10000) (hm : m < 100)
     (hmm : mm < 100) (hss : ss < 100) : parseCompact (showDT (y, m, d, hh, mm, ss)) = .compact y m d hh mm ss false :=
   parseCompact_showDT y m d hh mm ss hy hm hd hh' hmm hss
 
-/-- `rrulestr(str(rule))` (no options) for every printable rule with a start: a single rule with exactly the printed
-    arguments and the printed DTSTART text.  "Same occurrences" follows with C01 (`rrule()` is a function of these
-    arguments and the start) and `compact_roundtrip` for the two date texts. -/
-theorem str_roundtrip (x : StrIn) (hx : Printable x) (t : Nat × Nat × Nat × Nat × Nat × Nat) (ht : x.dtstart = some t) :
-    parseRfc (toStr x) {} = .ok (.rule (argsOf x) (some (showDT t, []))) := parseRfc_toStr x hx t ht
+/-- `rrulestr(str(rule), ignoretz=…, tzinfos=…, cache=…)` (no unfold / forceset / compatible) for every printable rule with a
+    start: a single rule with exactly the printed arguments and the printed DTSTART text, the UNTIL and DTSTART values
+    carrying the options that were passed, the rule built with `cache`.  "Same occurrences" follows with C01 (`rrule()` is
+    a function of these arguments and the start) and `compact_roundtrip` for the two date texts. -/
+theorem str_roundtrip (x : StrIn) (hx : Printable x) (t : Nat × Nat × Nat × Nat × Nat × Nat) (ht : x.dtstart = some t)
+    (o : Opts) (hu : o.unfold = false) (hf : o.forceset = false) (hc : o.compatible = false) (kw : Bool) :
+    parseRfc (toStr x) o kw = .ok (.rule (argsOf o.po x) (some (showDT t, [], o.po)) o.cache) :=
+  parseRfc_toStr x hx t ht o hu hf hc kw
 
-/-- a rule printed without a DTSTART line (cannot happen for a constructed rule) -/
-theorem str_roundtrip_nostart (x : StrIn) (hx : Printable x) (ht : x.dtstart = none) :
-    parseRfc (toStr x) {} = .ok (.rule (argsOf x) none) := parseRfc_toStr_none x hx ht
+/-- a rule printed without a DTSTART line (cannot happen for a constructed rule): the single-line fast path -/
+theorem str_roundtrip_nostart (x : StrIn) (hx : Printable x) (ht : x.dtstart = none)
+    (o : Opts) (hu : o.unfold = false) (hf : o.forceset = false) (hc : o.compatible = false) (kw : Bool) :
+    parseRfc (toStr x) o kw = .ok (.rule (argsOf o.po x) none o.cache) := parseRfc_toStr_none x hx ht o hu hf hc kw
 
 /-- items 3, 5 and 6 together — "every spelling": take the parts of `str(rule)` in ANY order (`List.Perm`), join them with
     `;`, write the text in ANY letter case: the RRULE value still parses to exactly the printed arguments.  (The parts of
     `str(rule)` set pairwise different keywords: `partsOf_distinct`.) -/
 theorem str_roundtrip_any_order_any_case (x : StrIn) (hx : Printable x) (qs : List (List Char))
     (hperm : (partsOf x).Perm qs) (txt : List Char) (hcase : upper txt = intercalate [';'] qs) :
-    parseRRuleLine (upper txt) = .ok (argsOf x) ∧
+    parseRRuleLine po (upper txt) = .ok (argsOf po x) ∧
     parseRfc txt {} = parseRfc (intercalate [';'] qs) {} := by
   refine ⟨by rw [hcase]; exact parseRRuleLine_perm x hx qs hperm, ?_⟩
   rw [← case_irrelevant txt, hcase]
@@ -187,7 +194,7 @@ def sample : StrIn :=
 
 example : Printable sample := by
   constructor <;> first | decide | (intro l h; cases h; exact ⟨by decide, by decide⟩)
-example : (argsOf sample).byweekday = some [(0, some 1), (4, some (-2)), (6, none)] ∧ (argsOf sample).wkst = some 6 := by decide
+example : (argsOf {} sample).byweekday = some [(0, some 1), (4, some (-2)), (6, none)] ∧ (argsOf {} sample).wkst = some 6 := by decide
 
 example : (partsOf sample).Perm (partsOf sample).reverse ∧ upper (lit "byeaster=0,-2") = lit "BYEASTER=0,-2" :=
   ⟨(List.reverse_perm _).symm, by decide⟩
@@ -201,10 +208,10 @@ theorem multi_line_builds_set (ls : List Line) (hok : ∀ l ∈ ls, l.ok)
     (htext : ∀ l ∈ ls, ∀ c ∈ l.render, isLower c = false ∧ ICal.isSpace c = false)
     (o : Opts) (hu : o.unfold = false) (hc : o.compatible = false) (kw : Bool)
     (hne : ls ≠ []) (hmany : 2 ≤ ls.length ∨ o.forceset = true)
-    (hset : o.forceset = true ∨ 2 ≤ (rruleVals ls).length ∨ rdateVals ls ≠ [] ∨ exruleVals ls ≠ [] ∨ exdateVals ls ≠ []) :
-    parseRfc (intercalate ['\n'] (ls.map Line.render)) o kw = setOf ls false kw := by
+    (hset : o.forceset = true ∨ 2 ≤ (rruleVals ls).length ∨ rdateVals ls ≠ [] ∨ exruleVals ls ≠ [] ∨ exdateVals o.po ls ≠ []) :
+    parseRfc (intercalate ['\n'] (ls.map Line.render)) o kw = setOf o.po ls false kw o.cache := by
   rw [parseRfc_lines ls hne htext o hu hc kw]
-  refine parseLines_builds_set _ ls hok _ _ _ ?_ hset
+  refine parseLines_builds_set _ ls hok _ _ _ _ ?_ hset
   rcases hmany with h | h
   · exact shortcut_two _ _ _ (by simp; omega)
   · rw [h]; rfl
@@ -214,37 +221,55 @@ theorem multi_line_single_rule (ls : List Line) (hok : ∀ l ∈ ls, l.ok)
     (htext : ∀ l ∈ ls, ∀ c ∈ l.render, isLower c = false ∧ ICal.isSpace c = false)
     (o : Opts) (hu : o.unfold = false) (hc : o.compatible = false) (hf : o.forceset = false) (kw : Bool) (v : List Char)
     (hmany : 2 ≤ ls.length) (hr : rruleVals ls = [v]) (h1 : rdateVals ls = []) (h2 : exruleVals ls = [])
-    (h3 : exdateVals ls = []) :
-    parseRfc (intercalate ['\n'] (ls.map Line.render)) o kw = buildRule v (dtstartOf ls) := by
+    (h3 : exdateVals o.po ls = []) :
+    parseRfc (intercalate ['\n'] (ls.map Line.render)) o kw = buildRule o.po v (dtstartOf o.po ls) o.cache := by
   have hne : ls ≠ [] := by rintro rfl; simp at hmany
   rw [parseRfc_lines ls hne htext o hu hc kw, hf]
-  exact parseLines_builds_rule _ ls hok _ _ v (shortcut_two _ _ _ (by simp; omega)) hr h1 h2 h3
+  exact parseLines_builds_rule _ ls hok _ _ _ v (shortcut_two _ _ _ (by simp; omega)) hr h1 h2 h3
 
 /-- `forceset=True` (or `compatible=True`) never yields a bare rule: every successful result is a set, and its DTSTART-as-RDATE
     flag is `compatible ∧ (a DTSTART line was seen ∨ dtstart= was passed)` -/
 theorem forceset {s : List Char} {o : Opts} {kw : Bool} {r : Parsed} (ho : o.forceset = true ∨ o.compatible = true)
     (h : parseRfc s o kw = .ok r) :
-    ∃ rr ex rd exd dt, r = .set rr ex rd exd dt (o.compatible && (dt.isSome || kw)) := parseRfc_forceset ho h
+    ∃ rr ex rd exd dt, r = .set rr ex rd exd dt (o.compatible && (dt.isSome || kw)) o.cache := parseRfc_forceset ho h
 
 /-- `compatible=True` is `forceset=True` and `unfold=True` … -/
 theorem compatible (s : List Char) (o : Opts) (kw : Bool) (hc : o.compatible = true) :
-    parseRfc s o kw = parseRfc s { unfold := true, forceset := true, compatible := true } kw := parseRfc_compatible s o kw hc
+    parseRfc s o kw = parseRfc s { o with unfold := true, forceset := true } kw := parseRfc_compatible s o kw hc
 
 /-- … and sets the flag that adds DTSTART as an RDATE exactly when a start is known (on the collected lines) -/
-theorem compatible_adds_dtstart (s : List Char) (ls : List Line) (hok : ∀ l ∈ ls, l.ok) (kw : Bool) :
-    parseLines s (ls.map Line.render) true true kw = (do
-      let rr ← (rruleVals ls).mapM ruleOf
-      let ex ← (exruleVals ls).mapM ruleOf
-      .ok (.set rr ex ((rdateVals ls).map (splitOnChar ',')).flatten (exdateVals ls) (dtstartOf ls) ((dtstartOf ls).isSome || kw))) :=
-  parseLines_compatible_flag s ls hok kw
+theorem compatible_adds_dtstart (s : List Char) (ls : List Line) (hok : ∀ l ∈ ls, l.ok) (kw cache : Bool) :
+    parseLines po cache s (ls.map Line.render) true true kw = (do
+      let rr ← (rruleVals ls).mapM (ruleOf po)
+      let ex ← (exruleVals ls).mapM (ruleOf po)
+      .ok (.set rr ex (((rdateVals ls).map (splitOnChar ',')).flatten.map (fun d => (d, po))) (exdateVals po ls) (dtstartOf po ls)
+            ((dtstartOf po ls).isSome || kw) cache)) :=
+  parseLines_compatible_flag s ls hok kw cache
+
+/-! ## 8. option plumbing -/
+
+/-- `options_reach_every_path`: on ALL paths of `_parse_rfc` — the single-line fast path, several lines with one rule, and
+    the set path (forceset / compatible / two RRULEs / RDATE / EXRULE / EXDATE) — every date value in a successful result
+    (UNTIL of every rule and exrule, every RDATE and EXDATE value, DTSTART) was handed to `parser.parse` with exactly the
+    `ignoretz` / `tzinfos` the caller passed, and the rule or the set was built with exactly the caller's `cache`
+    (`Parsed.optsOK`).  The per-path statements are `buildRule_optsOK` (both single-rule paths) and `buildSet_optsOK`.
+    The model hands the options on at each call site separately, as the code does; the `rrs.parse` correspondence records
+    the keyword arguments of every `parser.parse`, `rrule()` and `rruleset()` call of the implementation against it. -/
+theorem options_reach_every_path {s : List Char} {o : Opts} {kw : Bool} {r : Parsed} (h : parseRfc s o kw = .ok r) :
+    r.optsOK o.po o.cache := parseRfc_optsOK h
+
+-- non-vacuity: the seeded-fault input, through the fast path, carries ignoretz to the UNTIL value
+example : parseRfc (lit "RRULE:FREQ=DAILY;UNTIL=19970905T090000Z") { ignoretz := true, cache := true } true =
+    .ok (.rule { freq := some 3, untilV := some (lit "19970905T090000Z", { ignoretz := true }) } none true) := by decide
 
 def sampleLines : List Line :=
   [.dtstart (lit "19970902T090000"), .rrule (lit "FREQ=DAILY;COUNT=3"), .rdate (lit "19970910T090000,19970911T090000"),
    .exrule (lit "FREQ=WEEKLY;COUNT=2"), .exdate (lit "19970902T090000")]
 
 example : (∀ l ∈ sampleLines, l.ok) ∧ 2 ≤ sampleLines.length ∧ rdateVals sampleLines ≠ [] := by decide
-example : ∃ rr ex, setOf sampleLines false false =
-    .ok (.set rr ex [lit "19970910T090000", lit "19970911T090000"] [(lit "19970902T090000", [])] (some (lit "19970902T090000", [])) false) :=
+example : ∃ rr ex, setOf {} sampleLines false false false =
+    .ok (.set rr ex [(lit "19970910T090000", {}), (lit "19970911T090000", {})] [(lit "19970902T090000", [], {})]
+          (some (lit "19970902T090000", [], {})) false false) :=
   ⟨_, _, rfl⟩
 example : ∃ r, parseRfc (lit "FREQ=DAILY;COUNT=2") { forceset := true } = .ok r := ⟨_, rfl⟩
 
